@@ -1,5 +1,5 @@
 (* C12 — per-declaration judgement evaluated by vm_compute on harness output. *)
-From SwayV Require Import Base.Util C12.Model C12.Spec.
+From SwayV Require Import Base.Util C12.Model C12.Spec C12.Members.
 Open Scope N_scope.
 
 Fixpoint bytes_eqb (a b : list byte) : bool :=
@@ -93,3 +93,39 @@ Definition judge (dg : list (list byte * list byte)) (fs : list jfield) (emitted
            else if negb (opt_eqb (j_dump f) (mem_plain (j_cst f))) then 4 else 0
          end in
   decl :: (if disj then 1 else 0) :: (match impl with 0 => map fcode fs | _ => [] end).
+
+(* ---------- partial reads of struct members.
+   member: index of the storage field, path of struct-field indices, value logged in the VM.
+   codes: 0 ok | 3 VIOLATION the member read in the VM is not the initializer's member |
+     13 VIOLATION no value observed (the read reverted) | 7 bad path / zero-sized member |
+     14 the model of read_quads at the member's (slot, offset) on the EMITTED slots does not give the
+        member's image (correspondence; expected only when the slots already disagree) |
+     15 slicing the field's image at the member offset is not the member's own image (layout model) *)
+Definition jmember := (nat * list nat * option (list byte))%type.
+
+Definition judge_member (dg : list (list byte * list byte)) (fs : list jfield) (emitted : list slot)
+           (m : jmember) : N :=
+  let '(fi, path, lg) := m in
+  match nth_error fs fi with
+  | None => 7
+  | Some f =>
+    match sub_field (j_ty f) (j_val f) path with
+    | None => 7
+    | Some (t', v', off) =>
+      let c' := lower_val t' v' in
+      if negb (supportedb c') || negb (off mod 8 =? 0)%nat then 7
+      else match lg with
+           | None => 13
+           | Some bs =>
+             if negb (bytes_eqb bs (abi_enc t' v')) then 3
+             else if negb (bytes_eqb (image_slice (j_ty f) (j_val f) off t') (mem_plain c')) then 15
+             else match read_member emitted (j_rkey dg f) off t' with
+                  | Ok (Some img) => if bytes_eqb img (mem_plain c') then 0 else 14
+                  | _ => 14
+                  end
+           end
+    end
+  end.
+
+Definition judge_members dg fs emitted (ms : list jmember) : list N :=
+  if existsb (j_miss dg) fs then [] else map (judge_member dg fs emitted) ms.
